@@ -259,6 +259,21 @@ func runC16(c *Ctx) {
 						c.R.Add(vh.Mismatch{Kind: "corr", What: "control decoder differs from the model (decoder " + fmt.Sprint(j) + " on a " + kind + " event)", Case: vh.Sprintf("%.2000s", req.String()), Model: vh.Sprintf("%.600s", m1.Nth(j).String()), Impl: vh.Sprintf("%.600s", i1.Nth(j).String())})
 					}
 				}
+				// header lengths near 255 (out of every property's domain): TableID computes its offsets in a byte,
+				// so they wrap around; model vs implementation on a long event
+				if r.Chance(1, 3) {
+					f2 := fi.f
+					f2.HeaderLength = byte(244 + r.Intn(12))
+					long := append(append([]byte{}, stripped...), r.Bytes(300)...)
+					m2 := c.M.Call(vh.L(vh.A("control"), fmtVal(f2), vh.X(long), vh.I(fl)))
+					i2 := implControl(f2, long, maria)
+					c.R.Count(fmt.Sprintf("hlen-wrap/hlen%d", f2.HeaderLength))
+					for j := 0; j < 5; j++ {
+						if i2.Nth(j).String() != m2.Nth(j).String() {
+							c.R.Add(vh.Mismatch{Kind: "corr", What: "control decoder differs from the model with a header length near 255 (decoder " + fmt.Sprint(j) + ")", Case: vh.Sprintf("hlen=%d x%x", f2.HeaderLength, long), Model: vh.Sprintf("%.600s", m2.Nth(j).String()), Impl: vh.Sprintf("%.600s", i2.Nth(j).String())})
+						}
+					}
+				}
 			}
 		}
 		if wantIdx >= 0 && decoded[0] != decoded[1] {
